@@ -11,9 +11,10 @@ import fcntl, glob, hashlib, json, os, random, re, shlex, subprocess, sys, time
 
 ROOT = os.path.dirname(os.path.dirname(os.path.abspath(__file__)))
 REPO = os.environ.get("VERIF_REPO", "/repo")
-B = os.path.join(ROOT, "build")
+B = os.environ.get("VERIF_BUILD", os.path.join(ROOT, "build"))      # bin/mutcheck points these three elsewhere
 SG = os.path.join(B, "sg")
-COQ = os.path.join(ROOT, "coq")
+COQ = os.environ.get("VERIF_COQ", os.path.join(ROOT, "coq"))
+OUT = os.environ.get("VERIF_OUT", ROOT)                                # evidence/ and findings/ go here
 GUARD = "SIMGRID_VERIF"
 NCPU = os.cpu_count() or 4
 
@@ -392,7 +393,7 @@ class Ctx:
     def finish(self):
         self.cov["distinct_nontrivial"] = len(self.distinct)
         viol = 0
-        os.makedirs(os.path.join(ROOT, "findings"), exist_ok=True)
+        os.makedirs(os.path.join(OUT, "findings"), exist_ok=True)
         seen_known = set()
         new_fail = []
         for f in self.failures:
@@ -413,7 +414,7 @@ class Ctx:
                 if len(seen) > 5:
                     break
                 h = hashlib.sha1((f["sig"] + json.dumps(f["case"], default=str, sort_keys=True)).encode()).hexdigest()[:10]
-                path = os.path.join(ROOT, "findings", "%s-%s.json" % (self.pid, h))
+                path = os.path.join(OUT, "findings", "%s-%s.json" % (self.pid, h))
                 json.dump({"property": self.pid, "kind": "failing-input", "signature": f["sig"], "what": f["what"],
                            "case": f["case"], "seed": self.seed, "tier": self.tier,
                            "replay": "bin/check %s --replay %s" % (self.pid, path)}, open(path, "w"), indent=1, default=str)
@@ -423,7 +424,7 @@ class Ctx:
         elif self.broken:
             b = self.broken[0]
             h = hashlib.sha1(json.dumps(self.broken, default=str, sort_keys=True).encode()).hexdigest()[:10]
-            path = os.path.join(ROOT, "findings", "%s-broken-%s.json" % (self.pid, h))
+            path = os.path.join(OUT, "findings", "%s-broken-%s.json" % (self.pid, h))
             json.dump({"property": self.pid, "kind": "no-failing-input-found",
                        "no_longer_checks": [x["name"] for x in self.broken], "details": self.broken,
                        "seed": self.seed, "tier": self.tier}, open(path, "w"), indent=1, default=str)
@@ -442,8 +443,8 @@ class Ctx:
               "coverage": self.cov, "assumptions": self.assumptions, "wall_s": round(time.time() - self.t0, 2),
               "violations": viol, "known_findings_seen": sorted(set(f["sig"] for f in self.failures if f["sig"] in self.known)),
               "notes": self.notes}
-        os.makedirs(os.path.join(ROOT, "evidence"), exist_ok=True)
-        p = os.path.join(ROOT, "evidence", self.pid + ".json")
+        os.makedirs(os.path.join(OUT, "evidence"), exist_ok=True)
+        p = os.path.join(OUT, "evidence", self.pid + ".json")
         json.dump(ev, open(p + ".tmp", "w"), indent=1, default=str)
         os.replace(p + ".tmp", p)
 
